@@ -62,10 +62,10 @@ func treeFilterFamily() []*term {
 		nsA,
 		{Kind: tAll}, // accept-none
 		{Kind: tLabelSelector, Sel: selSpec{Exprs: []selReq{{Key: "x", Op: "In", Values: []string{"1", "2"}}}}}, // overlaps l1 and l2
-		{Kind: tFN, FN: 0},                     // non-comparable, same meaning as nsA
-		{Kind: tNot, Children: []*term{l1}},    // complement
+		{Kind: tFN, FN: 0},                       // non-comparable, same meaning as nsA
+		{Kind: tNot, Children: []*term{l1}},      // complement
 		{Kind: tAnd, Children: []*term{nsA, l1}}, // nested
-		{Kind: tLabels, Set: set("x", "1")},    // equal to #1 by construction, distinct value
+		{Kind: tLabels, Set: set("x", "1")},      // equal to #1 by construction, distinct value
 	}
 }
 
@@ -90,6 +90,7 @@ type node struct {
 	mon  kcache.Monitor
 	leaf kcache.Subscription
 
+	lossy    bool // the consumer was stalled beyond its buffer: its own stream has gaps by design, no mirror oracle
 	filt     int // reference predicate: index into the family; -1 none; -2 deferred and not supplied; -3 the raw filter.All() (rejects markers too)
 	closed   bool
 	baseline bool
@@ -99,6 +100,7 @@ type node struct {
 	delayNs   int64
 	events    []evRec
 	markSeen  int
+	nmarks    int // marker events received
 	note      chan struct{}
 	mirror    map[string]metav1.Object
 	mirrorOn  bool
@@ -419,6 +421,7 @@ func (n *node) pump() {
 			if v := objVersion(obj); v > n.markSeen {
 				n.markSeen = v
 			}
+			n.nmarks++
 			n.mu.Unlock()
 			select {
 			case n.note <- struct{}{}:
@@ -896,6 +899,51 @@ func (w *world) barrier() {
 	w.barrier1()
 }
 
+// barrierRetry: a barrier for the moment right after stalled consumers were
+// released: their buffers may still be full, so a marker can be dropped on the
+// way to them (by design); markers are re-sent until every node has seen one.
+func (w *world) barrierRetry() {
+	deadline := time.Now().Add(wedgeBound + wedgeConfirm)
+	for round := 0; ; round++ {
+		nodes := w.barrierNodes()
+		mons := w.monitorsAtBarrier()
+		rv := w.api.put(markerNS, "marker", nil)
+		w.markRV = rv
+		ok := true
+		for _, n := range nodes {
+			if w.markerBlind(n) {
+				continue
+			}
+			d := time.Now().Add(100 * time.Millisecond)
+			for {
+				n.mu.Lock()
+				seen := n.markSeen
+				n.mu.Unlock()
+				if seen >= rv {
+					break
+				}
+				if time.Now().After(d) {
+					ok = false
+					break
+				}
+				time.Sleep(50 * time.Microsecond)
+			}
+		}
+		for _, n := range mons {
+			if !n.cb.waitMark(rv, 100*time.Millisecond) {
+				ok = false
+			}
+		}
+		if ok {
+			w.barrier()
+			return
+		}
+		if time.Now().After(deadline) {
+			w.fail("WEDGE: released consumers never caught up with the stream (markers re-sent %d times)", round+1)
+		}
+	}
+}
+
 // monitorsAtBarrier: live monitors whose handler is not blocked and whose
 // publisher should be ready; they see the marker through a callback (or in
 // the listing handed to OnInitialize).
@@ -920,6 +968,13 @@ func (n *node) snapshotObs() (events []evRec, mirror []string, mirrorErr, early,
 	}
 	sort.Strings(mirror)
 	return events, mirror, n.mirrorErr, n.early, n.stale
+}
+
+// totalCount: every event received, markers included.
+func (n *node) totalCount() int {
+	n.mu.Lock()
+	defer n.mu.Unlock()
+	return len(n.events) + n.nmarks
 }
 
 func (n *node) eventCount() int {
@@ -950,6 +1005,11 @@ func (w *world) checkQuiet() {
 	w.barrier()
 	for _, n := range w.nodes {
 		if n.kind == "mon" {
+			if n.closed {
+				w.waitFor(n.doneCh(), fmt.Sprintf("Done() of closed monitor %s", n.path()))
+			} else if isClosedCh(n.doneCh()) {
+				w.fail("live monitor %s: Done() closed although neither it nor an ancestor was closed", n.path())
+			}
 			continue
 		}
 		if n.closed {
@@ -1019,7 +1079,7 @@ func (w *world) checkQuiet() {
 		if stale != "" {
 			w.fail("node %s: %s", n.path(), stale)
 		}
-		if merr != "" {
+		if merr != "" && !n.lossy {
 			w.fail("node %s: event stream is not a well-formed delta: %s", n.path(), merr)
 		}
 		if !n.baseline {
@@ -1040,7 +1100,7 @@ func (w *world) checkQuiet() {
 			n.mirrorOn = true
 			n.mu.Unlock()
 			n.baseline = true
-		} else if !sameStrings(mirror, gk) {
+		} else if !n.lossy && !sameStrings(mirror, gk) {
 			w.fail("node %s: a consumer mirroring the cache by replaying Events() holds %v but the cache holds %v", n.path(), mirror, gk)
 		}
 	}
@@ -1067,7 +1127,7 @@ func (w *world) finish() {
 		w.waitFor(n.eof, fmt.Sprintf("Events() of %s being closed after root close", n.path()))
 		w.waitFor(n.doneCh(), fmt.Sprintf("Done() of %s after root close", n.path()))
 	}
-	w.cancel()
+	// the context is still live: the library must wind down on Close() alone
 	bound := wedgeBound
 	if atomic.LoadInt32(&wedgeSeen) != 0 {
 		bound = wedgeAfter
@@ -1076,8 +1136,10 @@ func (w *world) finish() {
 		if len(dump) > 6000 {
 			dump = dump[:6000]
 		}
+		w.cancel()
 		w.fail("%d goroutines started by the library are still running after the root is done:\n%s", c, dump)
 	}
+	w.cancel()
 }
 
 // abort tears the world down without judging (used when a case already failed).
